@@ -33,16 +33,28 @@ def gen_history(rng, name, focus="mixed", cp=64, max_updates=2, pb=None, force_s
     if not lbp: pb = dict(pb, lb=[G.NINF] * pb["n"])
     if not ubp: pb = dict(pb, ub=[G.INF] * pb["n"])
     ops.append(G.op_setup(pb, lb_present=lbp, ub_present=ubp))
+    pbs[0] = pb
     opno = 1
     tags = ["n%d" % pb["n"], "p%d" % pb["p"], "m%d" % pb["m"], "b:" + "".join(k[0] for k in pb["kinds"])]
     nupd = 0 if focus == "single" else rng.randint(0 if focus != "updates" else 1, max_updates)
     if rng.random() < (0.7 if nupd else 1.0):
         ops.append(G.op_solve()); pbs[opno] = pb; opno += 1
+    def infrows(q):
+        return set(i for i, v in enumerate(q["h"]) if isinstance(v, str) or abs(Fr(v)) > Fr(10) ** 30)
+    zeroed = infrows(pb)          # rows of G the solver has overwritten with zeros
     for u in range(nupd):
         names = set(k for k in ["P", "c", "A", "b", "G", "h", "lb", "ub"] if rng.random() < 0.35)
         pb, names = G.perturb(rng, pb, names)
+        if pb["m"] > 0:
+            if "G" in names:
+                if "h" not in names and zeroed:
+                    tags.append("F7b:G-resent-while-h-infinite")   # disabled rows come back with the placeholder h = 1
+                zeroed = set()
+            if "h" in names:
+                if zeroed - infrows(pb): tags.append("F7:h-finite-again-without-G")   # row stays zero although h is finite now
+                zeroed = zeroed | infrows(pb)
         reuse = rng.random() < 0.5
-        ops.append(G.op_update(pb, names, reuse=reuse)); opno += 1
+        ops.append(G.op_update(pb, names, reuse=reuse)); pbs[opno] = pb; opno += 1
         tags.append("u:%s:%d" % ("".join(sorted(x[0] for x in names)), reuse))
         if rng.random() < 0.75 or u == nupd - 1:
             ops.append(G.op_solve()); pbs[opno] = pb; opno += 1
@@ -69,8 +81,11 @@ def run_suite(ctx, cases, backends=spine.ALL_BACKENDS, preconds=("ruiz",), name=
                     opno, key = k.split(".", 1)
                     per_op.setdefault(int(opno), {})[key] = v
                 for opno, o in per_op.items():
-                    if o.get("op") != "solve" or opno not in c.pbs: continue
-                    V = oracles.check_result(c.pbs[opno], dict(c.settings), o, exact=exact)
+                    if opno not in c.pbs: continue
+                    if o.get("op") != "solve":
+                        V = oracles.check_scaling(c.pbs[opno], o) if getattr(c, "scaling_oracle", True) else []
+                    else:
+                        V = oracles.check_result(c.pbs[opno], dict(c.settings), o, exact=exact)
                     for code, msg in V:
                         if codes is not None and not any(code.startswith(p) for p in codes): continue
                         nviol += 1
